@@ -39,6 +39,10 @@ P = {
          'The structural conditions that make the channel-semaphore and mutex arguments go through hold on every path; in serial mode nothing is offered while any vertex is in progress. The bound itself follows from channel/mutex semantics (trusted).'),
  'C16': (True, 'other', 'dominance of the cycle check, insert-only rule for the vertex table, exactly-one completion per goroutine, finite evaluation of the done counter, launch must-pass-through, edge symmetry, three-colour DFS shape',
          'Necessary conditions for termination and for cycle rejection on every path and for every construction order of the graph (the insert-only rule is what the AddTask-after-TaskDependsOn defect violated). Liveness itself (Run returns, work conservation) is not decided.'),
+ 'C19': (True, 'other', 'enumeration of every index / slice / type-assertion / panic site reachable (CHA) from Parse, Dispatch, Help and completion, each discharged by a guard rule over dominating facts (length facts, range counters, regexp group analysis, SplitN+Contains, sort callbacks, kind/type agreement, iterator-after-Next); loop and recursion termination inventory; return-shape check',
+         'All ~380 panic-capable sites and all ~45 loops in reachable library code are individually discharged on the current tree; an undischarged site fails the check. General nil-dereference freedom, memory/stack exhaustion and user callbacks are not decided.'),
+ 'C20': (True, 'proof', 'order-taint analysis over go/ssa: every map range is an unordered loop whose effects must be order-insensitive; slices derived from it are followed inter-procedurally (appends, parameters, results, struct fields) to sinks that must be sort / len / range / singleton index; allow-list of reachable standard-library calls; unique-key check for the unstable sort; formatting operand types',
+         'Proof modulo the trusted base: if every obligation is discharged no observable output can depend on map iteration order or on a hidden-state source, for every definition and input. Trusted: determinism of the allow-listed stdlib functions and of the compiler; package dag and the debug Logger are outside C20.'),
 }
 NOT_YET = 'static check for this property is not built yet (work in progress; see DESIGN.md section 4 for the planned rules)'
 checks, na = [], []
